@@ -6,6 +6,10 @@ From FIM Require Import Base.Str Model.Sliver2Kinds Gen.PropMap Model.Sliver2Map
   Proofs.Sliver2Assoc.
 Import ListNotations.
 
+(* the lemmas of this file must not depend on the CONTENT of the regenerated tables *)
+Local Opaque enums type_enum to_base from_base to_specific from_specific setters getters init_attrs
+  sliver_property_to_graph no_unset_properties child_keys node_id_prop.
+
 Definition gp (te : to_entry) : string := snd (fst te).
 Definition at_ (te : to_entry) : string := fst (fst te).
 
